@@ -26,7 +26,7 @@ sys.path.insert(0, str(core.ROOT / 'tools'))
 
 PROP = 'C07'
 MODEL_MODULES = ['TenpyModel.Util.J', 'TenpyModel.MPS.Eval']
-PROPS_MODULES = ['TenpyModel.C07.Props']
+PROPS_MODULES = ['TenpyModel.C07.Props', 'TenpyModel.C07.Props2']
 LEVEL = 'proof'
 BUDGET = {'quick': 200, 'thorough': 1500}
 RULE = ('states by every constructor (from_product_state with labels/ints/local vectors and permute on/off, from_full on '
